@@ -11,7 +11,7 @@ What the CREATE TABLE printers write beyond expressions and the separators of th
 * `=` between a keyword / a quoted key and a value without blanks (`ENGINE=InnoDB`, `'k'='v'`): `tk_eq`, `Lx.eqJoin`;
 * the closed words of the two renderings, decided on the regenerated table (`ddl_words_lex`, `eq_words_lex`);
 * raw-source payloads (`srcLex`: comments, charset / engine / index names …: a digit string, a quoted string of the escape grammar,
-  a back-quoted name, or a plain word) read back as the ONE token `TD.srcTok s` (`lx_src`);
+  a back-quoted name, or a plain word) read back as the ONE token `TD.srcTok s` (`lx_src`), also directly before `=` (`tk_src_eq`);
 * `LL us tss` (pieces and their token lists, pointwise) and `lx_sepAll`: pieces joined by `,` + a gap lex to `TD.sepAll tss`.
 -/
 set_option linter.unusedVariables false
@@ -213,6 +213,101 @@ theorem tk_quoted_eq (s : String) (h : quotedLex s) : Tk s.toList (srcTok s) '='
   obtain ⟨k, body, hk, hv, hb, _⟩ := h
   simp only [srcTok, srcMark_quoted s k hk body hv]
   rw [hv]; exact tk_string k hk body hb '=' (by cases k <;> decide)
+
+/-- a digit string directly before `=` -/
+theorem tk_int_eq (ds : List Char) (hne : ds ≠ []) (hd : ∀ c ∈ ds, isDigit c.toNat = true) :
+    Tk ds (.single ds (Gen.mark_LITERAL ||| Gen.mark_LITERAL_INT)) '=' := by
+  have hrun : ∀ (T : List Char) (n : Nat) (stk : List (List Tok)), ∃ q, intSt q ∧
+      feedAllWith (handle Gen.cfgS T) ds ⟨n, n, .WAIT, stk⟩ = .ok ⟨n, n + ds.length, q, stk⟩ := by
+    intro T n stk
+    cases ds with
+    | nil => exact absurd rfl hne
+    | cons c cs =>
+      obtain ⟨q0, hq0, hl⟩ := int_first c (hd c (by simp))
+      have h1 := handle_addTo shipped_code (text := T) (m := ⟨n, n, .WAIT, stk⟩) hl
+      obtain ⟨q, hq, hr⟩ := int_run T cs (fun d hm => hd d (by simp [hm])) q0 hq0 n (n + 1) stk
+      refine ⟨q, hq, ?_⟩
+      rw [feedAllWith_cons_adv h1, hr]
+      simp only [List.length_cons]; congr 2; omega
+  refine tk_of_pending' ds '=' _ fun T pre more f fs hT => ?_
+  obtain ⟨q, hq, hr⟩ := hrun T pre.length (f :: fs)
+  refine ⟨q, hr, ?_⟩
+  have hb : Gen.cfgS.lookup q (.ch '=') = some (emitBefore mInt) := by
+    rcases hq with rfl | rfl <;> exact look (by decide +kernel)
+  rw [handle_emitBefore shipped_code (m := ⟨pre.length, pre.length + ds.length, q, f :: fs⟩) hb rfl]
+  have hw : win T ⟨pre.length, pre.length + ds.length, q, f :: fs⟩ (pre.length + ds.length) = ds := by
+    rw [hT]; exact win_mid pre ds ('=' :: more) _ _ _
+  rw [hw]; rfl
+
+theorem bx_eq : tkIs ['b'] '=' (.single ['b'] Gen.mark_NAME) = true ∧ tkIs ['B'] '=' (.single ['B'] Gen.mark_NAME) = true ∧
+    tkIs ['x'] '=' (.single ['x'] Gen.mark_NAME) = true ∧ tkIs ['X'] '=' (.single ['X'] Gen.mark_NAME) = true := by decide +kernel
+
+/-- a plain name directly before `=` -/
+theorem tk_plain_eq (a : List Char) (h : plainL a = true) : Tk a (.single a (wmL a)) '=' := by
+  have hend : endsWord '=' = true := by decide +kernel
+  cases a with
+  | nil => cases h
+  | cons c r =>
+    simp only [plainL, Bool.and_eq_true, List.all_eq_true] at h
+    have hhead : (c :: r).head?.any (fun c => c.isAlpha || c == '_') = true := by simpa using h.1
+    have hwm := wordMark_alpha (c :: r) hhead
+    by_cases hbx : c = 'b' ∨ c = 'B' ∨ c = 'x' ∨ c = 'X'
+    · cases r with
+      | nil =>
+        rcases hbx with rfl | rfl | rfl | rfl
+        · rw [wmL_bx.1]; exact tk_of_is bx_eq.1
+        · rw [wmL_bx.2.1]; exact tk_of_is bx_eq.2.1
+        · rw [wmL_bx.2.2.1]; exact tk_of_is bx_eq.2.2.1
+        · rw [wmL_bx.2.2.2]; exact tk_of_is bx_eq.2.2.2
+      | cons y r' =>
+        rw [← hwm]
+        refine tk_of_inword (c :: y :: r') (fun T n stk => ?_) '=' hend
+        have hp : ∃ p, (p = S.AFTER_B ∨ p = S.AFTER_X) ∧ Gen.cfgS.lookup .WAIT (.ch c) = some (addTo p) := by
+          rcases hbx with rfl | rfl | rfl | rfl
+          · exact ⟨.AFTER_B, Or.inl rfl, look (by decide +kernel)⟩
+          · exact ⟨.AFTER_B, Or.inl rfl, look (by decide +kernel)⟩
+          · exact ⟨.AFTER_X, Or.inr rfl, look (by decide +kernel)⟩
+          · exact ⟨.AFTER_X, Or.inr rfl, look (by decide +kernel)⟩
+        obtain ⟨p, hpp, hl1⟩ := hp
+        have hy := alnumU_code y (h.2 y (by simp))
+        have hf := alnum_facts y.toNat hy.2 hy.1
+        have hl2 : Gen.cfgS.lookup p (.ch y) = some (addTo .IN_WORD) := by
+          rcases hpp with rfl | rfl
+          · exact look hf.2.1
+          · exact look hf.2.2
+        have e1 := handle_addTo shipped_code (text := T) (m := ⟨n, n, .WAIT, stk⟩) hl1
+        have e2 := handle_addTo shipped_code (text := T) (m := ⟨n, n + 1, p, stk⟩) hl2
+        rw [feedAllWith_cons_adv e1, feedAllWith_cons_adv e2,
+          feedAll_loop shipped_code (fun c => wordChar c = true) word_next r'
+            (fun x hx => alnum_wordChar x (h.2 x (by simp [hx])))]
+        simp only [List.length_cons]; congr 2; omega
+    · have hsw : startsWord c = true := by
+        have hc := alnumU_code c (plainL_head c h.1)
+        have hwc := (alnum_facts c.toNat hc.2 hc.1).1
+        have hnd : isDigit c.toNat = false := by
+          have := alpha_not_digit c h.1
+          rwa [charIsDigit] at this
+        have hnb : isBitPrefix c.toNat = false ∧ isHexPrefix c.toNat = false := by
+          simp only [isBitPrefix, isHexPrefix, isCh_toNat, Bool.or_eq_false_iff, decide_eq_false_iff_not]
+          exact ⟨⟨fun e => hbx (Or.inl e), fun e => hbx (Or.inr (Or.inl e))⟩,
+            ⟨fun e => hbx (Or.inr (Or.inr (Or.inl e))), fun e => hbx (Or.inr (Or.inr (Or.inr e)))⟩⟩
+        simp [startsWord, hwc, hnd, hnb.1, hnb.2]
+      have hw : isWord (c :: r) = true := by
+        simp only [isWord, Bool.and_eq_true, List.all_eq_true]
+        exact ⟨hsw, fun x hx => alnum_wordChar x (h.2 x hx)⟩
+      rw [← hwm]
+      exact tk_of_inword (c :: r) (fun T n stk => word_run T (c :: r) hw n stk) '=' hend
+
+/-- **a raw-source payload directly before `=`** (the key of a table property) -/
+theorem tk_src_eq (s : String) (h : srcLex s) : Tk s.toList (srcTok s) '=' := by
+  rcases h with ⟨hne, hd⟩ | hq | ⟨body, hv, hb⟩ | hp
+  · simp only [srcTok, srcMark_digits s hne hd]
+    exact tk_int_eq s.toList hne hd
+  · exact tk_quoted_eq s hq
+  · simp only [srcTok, srcMark_bq s body hv]
+    rw [hv]; exact tk_bq body (fun x hx => (hb x hx).1) '='
+  · simp only [srcTok, srcMark_plain s hp]
+    exact tk_plain_eq s.toList hp
 
 theorem quoted_src (s : String) (h : quotedLex s) : srcLex s := Or.inr (Or.inl h)
 
